@@ -47,6 +47,7 @@ int vnaproperty_export_yaml_to_file(const vnaproperty_t *root, FILE *fp,
     yaml_document_t document;
     bool delete_document = false;
     yaml_emitter_t emitter;
+    bool delete_emitter = false;
 
     /*
      * Init the vnaproperty_yaml_t structure.
@@ -90,6 +91,7 @@ int vnaproperty_export_yaml_to_file(const vnaproperty_t *root, FILE *fp,
 		vyml.vyml_filename, strerror(errno));
 	goto error;
     }
+    delete_emitter = true;
     yaml_emitter_set_output_file(&emitter, fp);
     yaml_emitter_set_encoding(&emitter, YAML_UTF8_ENCODING);
     yaml_emitter_set_canonical(&emitter, 0);
@@ -131,6 +133,9 @@ int vnaproperty_export_yaml_to_file(const vnaproperty_t *root, FILE *fp,
 error:
     if (delete_document) {
 	yaml_document_delete(&document);
+    }
+    if (delete_emitter) {
+	yaml_emitter_delete(&emitter);
     }
     return -1;
 }
